@@ -1,6 +1,13 @@
 //! C18: DER and RLP integer codecs are canonical and fail closed.
-//! Bounds: U64 and U128 targets; DER magnitude strings of length 0..=BYTES+2 (all byte values);
-//! RLP single-value encodings of total length 0..=BYTES+3.
+//! Bounds: U64 and U128 targets; DER magnitude / content strings of length 0..=BYTES+2 (all byte values);
+//! RLP inputs of total length 0..=BYTES+3 (all byte values); encoders on all values (DER) / a concrete table (RLP).
+//!
+//! DER: `der::SliceReader` + `Header::decode` is very expensive for CBMC (a fully concrete `U64::from_der` needs ~10 min
+//! and ~11 GB, because every `read_byte` result is opaque to constant propagation and the `Length::decode` loop is
+//! unwound to the global bound). The quick tier therefore enters at `DecodeValue::decode_value` / `EncodeValue` (the
+//! code that lives in crypto-bigint) with a hand-built header; `from_der` / `encode_to_slice` are thorough-tier (c18t_).
+//! RLP: the decoder is cheap; `RlpStream` (BytesMut, `slice::rotate` in the long-string arm) is only tractable for
+//! concrete values.
 use crate::*;
 use crate::util::*;
 use crypto_bigint::*;
@@ -12,6 +19,109 @@ fn be_value_local(b: &[u8]) -> u128 {
     let mut i = 0;
     while i < b.len() { v = (v << 8) | b[i] as u128; i += 1; }
     v
+}
+
+/// Reference DER INTEGER decoder (X.690 8.3 + 10.1) for an unsigned target of `cap` octets:
+/// `Some(value)` iff `inp` is *exactly* one canonical, non-negative INTEGER TLV whose magnitude fits `cap` octets.
+/// Valid for `cap + 1 < 128` (the content then always has a short-form length; every long-form or indefinite length
+/// octet 0x80..=0xff is non-canonical or announces more content than an input of <= 127 octets can hold).
+fn der_uint_ref(inp: &[u8], cap: usize) -> Option<u128> {
+    let n = inp.len();
+    if n < 3 { return None; }                          // tag, length, at least one content octet
+    if inp[0] != 0x02 { return None; }                 // UNIVERSAL, primitive, INTEGER
+    let l = inp[1] as usize;
+    if l >= 0x80 { return None; }                      // long / indefinite form
+    if l == 0 || n != 2 + l { return None; }           // empty content; truncated input; trailing octets
+    let c = &inp[2..];
+    if c[0] & 0x80 != 0 { return None; }               // negative
+    if l > 1 && c[0] == 0 && c[1] & 0x80 == 0 { return None; } // superfluous leading 0x00
+    let mag = if l > 1 && c[0] == 0 { &c[1..] } else { c };
+    if mag.len() > cap { return None; }                // does not fit the target
+    Some(be_value_local(mag))
+}
+
+/// Reference canonical DER encoding of `x` (a value of at most `cap <= 16` octets) into `out`; returns the length.
+fn der_uint_enc_ref(x: u128, cap: usize, out: &mut [u8; 20]) -> usize {
+    // number of significant octets (1 for zero)
+    let mut k: usize = 1;
+    let mut i = 1;
+    while i < cap { if (x >> (8 * i)) != 0 { k = i + 1; } i += 1; }
+    let top = (x >> (8 * (k - 1))) as u8;
+    let pad = if top & 0x80 != 0 { 1 } else { 0 };
+    out[0] = 0x02;
+    out[1] = (k + pad) as u8;
+    if pad == 1 { out[2] = 0; }
+    let mut j = 0;
+    while j < cap {
+        if j < k { out[2 + pad + j] = (x >> (8 * (k - 1 - j))) as u8; }
+        j += 1;
+    }
+    2 + pad + k
+}
+
+/// Reference RLP decoder for a single unsigned integer of at most `cap` octets (Ethereum yellow paper, app. B:
+/// an integer is the byte string of its minimal big-endian representation; a string of length 1 below 0x80 is its own
+/// encoding, strings of 0..=55 octets get the prefix 0x80 + length, the long form 0xb8.. is reserved for >= 56 octets).
+/// `Some((value, item_len))` iff `inp` *starts with* the canonical encoding of an integer that fits.
+fn rlp_uint_ref(inp: &[u8], cap: usize) -> Option<(u128, usize)> {
+    if inp.is_empty() { return None; }
+    let b0 = inp[0];
+    if b0 < 0x80 { return if b0 == 0 { None } else { Some((b0 as u128, 1)) }; }
+    if b0 <= 0xb7 {
+        let n = (b0 - 0x80) as usize;
+        if inp.len() < 1 + n { return None; }          // truncated
+        if n == 0 { return Some((0, 1)); }
+        let p = &inp[1..1 + n];
+        if p[0] == 0 { return None; }                  // leading zero
+        if n == 1 && p[0] < 0x80 { return None; }      // must be its own encoding
+        if n > cap { return None; }                    // oversized
+        return Some((be_value_local(p), 1 + n));
+    }
+    None // 0xb8..=0xbf: long form with a payload < 56 octets is non-canonical (and >= 56 > cap); 0xc0..: a list
+}
+
+/// Reference canonical RLP encoding of `x` (at most `cap <= 16` octets); returns the length.
+fn rlp_uint_enc_ref(x: u128, cap: usize, out: &mut [u8; 20]) -> usize {
+    if x == 0 { out[0] = 0x80; return 1; }
+    if x < 0x80 { out[0] = x as u8; return 1; }
+    let mut k: usize = 1;
+    let mut i = 1;
+    while i < cap { if (x >> (8 * i)) != 0 { k = i + 1; } i += 1; }
+    out[0] = 0x80 + k as u8;
+    let mut j = 0;
+    while j < cap {
+        if j < k { out[1 + j] = (x >> (8 * (k - 1 - j))) as u8; }
+        j += 1;
+    }
+    1 + k
+}
+
+/// `Encodable::rlp_append` into the smallest stream (`RlpStream::new_with_buffer(BytesMut::default())`) produces the
+/// reference encoding of `x`, and `rlp::decode` of it gives `x` back.
+/// Only *concrete* `x`: with a symbolic value the payload length is symbolic, CBMC then explores the stream's
+/// "> 55 octets" arm (`insert_size` -> `slice::rotate`, nested pointer loops) and runs out of memory (> 12 GB) --
+/// tried with `rlp::encode`, with the empty-buffer stream, and with a concrete top octet.
+fn rlp_encode_case_u64(x: u64) {
+    let mut want = [0u8; 20];
+    let n = rlp_uint_enc_ref(x as u128, 8, &mut want);
+    let mut st = rlp::RlpStream::new_with_buffer(Default::default());
+    rlp::Encodable::rlp_append(&mk64(x), &mut st);
+    let enc = st.out();
+    assert!(enc.len() == n);
+    let mut i = 0;
+    while i < 9 { if i < n { assert!(enc[i] == want[i]); } i += 1; }
+    match rlp::decode::<U64>(&enc[..]) { Ok(y) => assert!(u64_of(&y) == x), Err(_) => assert!(false, "own encoding rejected") }
+}
+fn rlp_encode_case_u128(x: u128) {
+    let mut want = [0u8; 20];
+    let n = rlp_uint_enc_ref(x, 16, &mut want);
+    let mut st = rlp::RlpStream::new_with_buffer(Default::default());
+    rlp::Encodable::rlp_append(&mk128(x), &mut st);
+    let enc = st.out();
+    assert!(enc.len() == n);
+    let mut i = 0;
+    while i < 17 { if i < n { assert!(enc[i] == want[i]); } i += 1; }
+    match rlp::decode::<U128>(&enc[..]) { Ok(y) => assert!(u128_of(&y) == x), Err(_) => assert!(false, "own encoding rejected") }
 }
 
 harnesses! {
@@ -52,5 +162,322 @@ harnesses! {
                 Err(_) => { assert!(stripped.len() > 16); }
             }
         }
+    }
+
+    // ------------------------------------------------------------------ DER through der::Decode / der::Encode
+
+    /// U64::from_der on tag + length field + first content octets symbolic (4 octets), concrete tail, total length
+    /// 0..=13: Ok exactly for a canonical INTEGER TLV that fits, with the positional value; wrong tag, long-form /
+    /// indefinite / zero / too long / too short length, trailing octets, negative, non-minimal and oversized
+    /// contents are Err (never a panic)
+    #[kani::unwind(9)]
+    fn c18t_der_header_u64(s) {
+        let h: [u8; 4] = s.bytes();
+        let buf: [u8; 13] = [h[0], h[1], h[2], h[3], 0x80, 0x01, 0xfe, 0x00, 0x7f, 0xff, 0x10, 0x00, 0x01];
+        let len = s.usize();
+        s.assume(len <= 13);
+        let inp = &buf[..len];
+        let res = U64::from_der(inp);
+        match der_uint_ref(inp, 8) {
+            Some(v) => {
+                s.cover(len == 11);
+                match res { Ok(x) => assert!(u64_of(&x) as u128 == v), Err(_) => assert!(false, "canonical INTEGER rejected") }
+            }
+            None => assert!(res.is_err()),
+        }
+    }
+
+    /// the part of `U64::from_der` that is crypto-bigint's: `DecodeValue::decode_value` on a `der::SliceReader` over
+    /// the content octets with a hand-built INTEGER header, then `Reader::finish` (what `Decode::decode` + `from_der`
+    /// do after `Header::decode`). Content: 0..=10 symbolic octets; announced length 0..=11 (also != actual length).
+    /// Ok exactly for canonical, non-negative, fitting content of exactly the announced length; value positional;
+    /// empty / negative (top bit set) / non-minimal (superfluous 0x00) / oversized / truncated / trailing -> Err
+    #[kani::unwind(11)]
+    fn c18_der_decode_value_u64(s) {
+        let buf: [u8; 10] = s.bytes();
+        let len = s.usize();
+        s.assume(len <= 10);
+        let hl = s.u16();
+        s.assume(hl <= 11);
+        let content = &buf[..len];
+        let mut reader = match der::SliceReader::new(content) { Ok(r) => r, Err(_) => { assert!(false); return; } };
+        let header = match der::Header::new(der::Tag::Integer, der::Length::new(hl)) { Ok(h) => h, Err(_) => { assert!(false); return; } };
+        let res = <U64 as der::DecodeValue>::decode_value(&mut reader, header).and_then(|v| der::Reader::finish(reader, v));
+        // the TLV this corresponds to
+        let mut tlv = [0u8; 12];
+        tlv[0] = 0x02;
+        tlv[1] = hl as u8;
+        let mut i = 0;
+        while i < 10 { tlv[2 + i] = buf[i]; i += 1; }
+        let expect = if hl as usize == len { der_uint_ref(&tlv[..2 + len], 8) } else { None };
+        match expect {
+            Some(v) => {
+                s.cover(len == 9);
+                match res { Ok(x) => assert!(u64_of(&x) as u128 == v), Err(_) => assert!(false, "canonical INTEGER rejected") }
+            }
+            None => assert!(res.is_err()),
+        }
+    }
+    /// same for U128: content 0..=18 octets, announced length 0..=19
+    #[kani::unwind(19)]
+    fn c18_der_decode_value_u128(s) {
+        let buf: [u8; 18] = s.bytes();
+        let len = s.usize();
+        s.assume(len <= 18);
+        let hl = s.u16();
+        s.assume(hl <= 19);
+        let content = &buf[..len];
+        let mut reader = match der::SliceReader::new(content) { Ok(r) => r, Err(_) => { assert!(false); return; } };
+        let header = match der::Header::new(der::Tag::Integer, der::Length::new(hl)) { Ok(h) => h, Err(_) => { assert!(false); return; } };
+        let res = <U128 as der::DecodeValue>::decode_value(&mut reader, header).and_then(|v| der::Reader::finish(reader, v));
+        let mut tlv = [0u8; 20];
+        tlv[0] = 0x02;
+        tlv[1] = hl as u8;
+        let mut i = 0;
+        while i < 18 { tlv[2 + i] = buf[i]; i += 1; }
+        let expect = if hl as usize == len { der_uint_ref(&tlv[..2 + len], 16) } else { None };
+        match expect {
+            Some(v) => {
+                s.cover(len == 17);
+                match res { Ok(x) => assert!(u128_of(&x) == v), Err(_) => assert!(false, "canonical INTEGER rejected") }
+            }
+            None => assert!(res.is_err()),
+        }
+    }
+
+    /// crypto-bigint's `EncodeValue` for U64 (`value_len`, `encode_value` into a `der::SliceWriter`): for every value the
+    /// content octets are the canonical INTEGER content: minimal big-endian magnitude, preceded by 0x00 exactly when
+    /// its top bit is set (never negative, never a superfluous leading octet)
+    #[kani::unwind(11)]
+    fn c18_der_encode_value_u64(s) {
+        let x = s.u64();
+        let mut want = [0u8; 20];
+        let n = der_uint_enc_ref(x as u128, 8, &mut want) - 2; // content only
+        let ux = mk64(x);
+        match der::EncodeValue::value_len(&ux) { Ok(l) => assert!(u32::from(l) as usize == n), Err(_) => assert!(false) }
+        let mut out = [0u8; 10];
+        let mut w = der::SliceWriter::new(&mut out);
+        assert!(der::EncodeValue::encode_value(&ux, &mut w).is_ok());
+        match w.finish() {
+            Ok(enc) => {
+                assert!(enc.len() == n && n >= 1 && n <= 9);
+                let mut i = 0;
+                while i < 9 { if i < n { assert!(enc[i] == want[2 + i]); } i += 1; }
+                assert!(enc[0] & 0x80 == 0);
+                assert!(!(n > 1 && enc[0] == 0 && enc[1] & 0x80 == 0));
+            }
+            Err(_) => assert!(false, "encoding failed"),
+        }
+    }
+    /// `EncodeValue` for U128
+    #[kani::unwind(19)]
+    fn c18_der_encode_value_u128(s) {
+        let x = s.u128();
+        let mut want = [0u8; 20];
+        let n = der_uint_enc_ref(x, 16, &mut want) - 2;
+        let ux = mk128(x);
+        match der::EncodeValue::value_len(&ux) { Ok(l) => assert!(u32::from(l) as usize == n), Err(_) => assert!(false) }
+        let mut out = [0u8; 18];
+        let mut w = der::SliceWriter::new(&mut out);
+        assert!(der::EncodeValue::encode_value(&ux, &mut w).is_ok());
+        match w.finish() {
+            Ok(enc) => {
+                assert!(enc.len() == n && n >= 1 && n <= 17);
+                let mut i = 0;
+                while i < 17 { if i < n { assert!(enc[i] == want[2 + i]); } i += 1; }
+                assert!(enc[0] & 0x80 == 0);
+                assert!(!(n > 1 && enc[0] == 0 && enc[1] & 0x80 == 0));
+            }
+            Err(_) => assert!(false, "encoding failed"),
+        }
+    }
+
+    /// der::Encode for U64 (`encode_to_slice`, `encoded_len`): for every value the output is the canonical INTEGER TLV
+    /// (tag 0x02, short-form length, minimal content, 0x00 prefix exactly when the top bit would be set)
+    #[kani::unwind(12)]
+    fn c18t_der_encode_u64(s) {
+        let x = s.u64();
+        let mut out = [0u8; 12];
+        let mut want = [0u8; 20];
+        let n = der_uint_enc_ref(x as u128, 8, &mut want);
+        let ux = mk64(x);
+        match ux.encode_to_slice(&mut out) {
+            Ok(enc) => {
+                assert!(enc.len() == n);
+                let mut i = 0;
+                while i < 11 { if i < n { assert!(enc[i] == want[i]); } i += 1; }
+                // canonical, stated directly on the output
+                assert!(enc[0] == 0x02 && enc[1] as usize == n - 2 && n >= 3 && n <= 11);
+                assert!(enc[2] & 0x80 == 0);
+                assert!(!(n > 3 && enc[2] == 0 && enc[3] & 0x80 == 0));
+            }
+            Err(_) => assert!(false, "encoding failed"),
+        }
+        match ux.encoded_len() { Ok(l) => assert!(u32::from(l) as usize == n), Err(_) => assert!(false) }
+    }
+    /// der::Encode for U128
+    #[kani::unwind(20)]
+    fn c18t_der_encode_u128(s) {
+        let x = s.u128();
+        let mut out = [0u8; 20];
+        let mut want = [0u8; 20];
+        let n = der_uint_enc_ref(x, 16, &mut want);
+        let ux = mk128(x);
+        match ux.encode_to_slice(&mut out) {
+            Ok(enc) => {
+                assert!(enc.len() == n);
+                let mut i = 0;
+                while i < 19 { if i < n { assert!(enc[i] == want[i]); } i += 1; }
+                assert!(enc[0] == 0x02 && enc[1] as usize == n - 2 && n >= 3 && n <= 19);
+                assert!(enc[2] & 0x80 == 0);
+                assert!(!(n > 3 && enc[2] == 0 && enc[3] & 0x80 == 0));
+            }
+            Err(_) => assert!(false, "encoding failed"),
+        }
+        match ux.encoded_len() { Ok(l) => assert!(u32::from(l) as usize == n), Err(_) => assert!(false) }
+    }
+    /// an output buffer one octet too short is an error, not a panic or a truncated encoding (U64, all values)
+    #[kani::unwind(10)]
+    fn c18t_der_encode_short_buffer_u64(s) {
+        let x = s.u64();
+        let mut want = [0u8; 20];
+        let n = der_uint_enc_ref(x as u128, 8, &mut want);
+        let mut out = [0u8; 12];
+        let cut = s.usize();
+        s.assume(cut < n);
+        assert!(mk64(x).encode_to_slice(&mut out[..cut]).is_err());
+    }
+
+    /// decode(encode(x)) == x for every U64: encode_to_slice, then the tag / length octets are checked literally and
+    /// the content goes through DecodeValue + finish (the `from_der` header parser itself: c18t_der_header_u64)
+    #[kani::unwind(12)]
+    fn c18t_der_roundtrip_u64(s) {
+        let x = s.u64();
+        let mut out = [0u8; 12];
+        let enc = match mk64(x).encode_to_slice(&mut out) { Ok(e) => e, Err(_) => { assert!(false); return; } };
+        assert!(enc.len() >= 3 && enc[0] == 0x02 && enc[1] as usize == enc.len() - 2);
+        let mut reader = match der::SliceReader::new(&enc[2..]) { Ok(r) => r, Err(_) => { assert!(false); return; } };
+        let header = match der::Header::new(der::Tag::Integer, der::Length::new(enc[1] as u16)) { Ok(h) => h, Err(_) => { assert!(false); return; } };
+        let res = <U64 as der::DecodeValue>::decode_value(&mut reader, header).and_then(|v| der::Reader::finish(reader, v));
+        match res { Ok(y) => assert!(u64_of(&y) == x), Err(_) => assert!(false, "own encoding rejected") }
+    }
+    /// decode(encode(x)) == x for every U128
+    #[kani::unwind(20)]
+    fn c18t_der_roundtrip_u128(s) {
+        let x = s.u128();
+        let mut out = [0u8; 20];
+        let enc = match mk128(x).encode_to_slice(&mut out) { Ok(e) => e, Err(_) => { assert!(false); return; } };
+        assert!(enc.len() >= 3 && enc[0] == 0x02 && enc[1] as usize == enc.len() - 2);
+        let mut reader = match der::SliceReader::new(&enc[2..]) { Ok(r) => r, Err(_) => { assert!(false); return; } };
+        let header = match der::Header::new(der::Tag::Integer, der::Length::new(enc[1] as u16)) { Ok(h) => h, Err(_) => { assert!(false); return; } };
+        let res = <U128 as der::DecodeValue>::decode_value(&mut reader, header).and_then(|v| der::Reader::finish(reader, v));
+        match res { Ok(y) => assert!(u128_of(&y) == x), Err(_) => assert!(false, "own encoding rejected") }
+    }
+
+    // ------------------------------------------------------------------ RLP
+
+    /// rlp::decode::<U64> on every byte string of 0..=11 octets whose first octet is not a long-form string prefix
+    /// (0xb8..=0xbf, see c18_rlp_decode_longform_u64): never panics; Ok(v) exactly when the string starts with the
+    /// canonical encoding of an integer of <= 8 octets (no leading zero, single octets < 0x80 unprefixed, not
+    /// truncated, not a list), and then v is the big-endian value of the payload
+    #[kani::unwind(13)]
+    fn c18_rlp_decode_u64(s) {
+        let buf: [u8; 11] = s.bytes();
+        let len = s.usize();
+        s.assume(len <= 11);
+        s.assume(!(buf[0] >= 0xb8 && buf[0] <= 0xbf));
+        let inp = &buf[..len];
+        let res = rlp::decode::<U64>(inp);
+        match rlp_uint_ref(inp, 8) {
+            Some((v, _)) => {
+                s.cover(len == 9);
+                match res { Ok(x) => assert!(u64_of(&x) as u128 == v), Err(_) => assert!(false, "canonical RLP integer rejected") }
+            }
+            None => assert!(res.is_err()),
+        }
+    }
+    /// rlp::decode::<U128> on every byte string of 0..=19 octets (first octet not in 0xb8..=0xbf)
+    #[kani::unwind(21)]
+    fn c18_rlp_decode_u128(s) {
+        let buf: [u8; 19] = s.bytes();
+        let len = s.usize();
+        s.assume(len <= 19);
+        s.assume(!(buf[0] >= 0xb8 && buf[0] <= 0xbf));
+        let inp = &buf[..len];
+        let res = rlp::decode::<U128>(inp);
+        match rlp_uint_ref(inp, 16) {
+            Some((v, _)) => {
+                s.cover(len == 17);
+                match res { Ok(x) => assert!(u128_of(&x) == v), Err(_) => assert!(false, "canonical RLP integer rejected") }
+            }
+            None => assert!(res.is_err()),
+        }
+    }
+    /// long-form string prefix 0xb8..=0xbf ("length of the length" form) in front of a payload shorter than 56 octets is
+    /// a non-canonical encoding: every such input of <= 11 octets must be rejected
+    #[kani::unwind(13)]
+    fn c18_rlp_decode_longform_u64(s) {
+        let buf: [u8; 11] = s.bytes();
+        let len = s.usize();
+        s.assume(len <= 11);
+        s.assume(buf[0] >= 0xb8 && buf[0] <= 0xbf);
+        let res = rlp::decode::<U64>(&buf[..len]);
+        assert!(res.is_err());
+    }
+    /// an accepted input is consumed entirely: no octets after the encoded integer (U64, inputs of <= 11 octets)
+    #[kani::unwind(13)]
+    fn c18_rlp_decode_trailing_u64(s) {
+        let buf: [u8; 11] = s.bytes();
+        let len = s.usize();
+        s.assume(len <= 11);
+        s.assume(!(buf[0] >= 0xb8 && buf[0] <= 0xbf));
+        let inp = &buf[..len];
+        if rlp::decode::<U64>(inp).is_ok() {
+            match rlp_uint_ref(inp, 8) { Some((_, item_len)) => assert!(item_len == len), None => assert!(false) }
+        }
+    }
+
+    /// RLP encoding, U64, concrete table 1 (see `rlp_encode_case`): 0, 1, 0x7f | 0x80 boundary, 0xff, 0x100
+    #[kani::unwind(12)]
+    fn c18_rlp_encode_u64_small(s) {
+        rlp_encode_case_u64(0);
+        rlp_encode_case_u64(1);
+        rlp_encode_case_u64(0x7f);
+        rlp_encode_case_u64(0x80);
+        rlp_encode_case_u64(0xff);
+        rlp_encode_case_u64(0x100);
+    }
+    /// RLP encoding, U64, concrete table 2: 0x7fff | 0x8000, 2^32, 2^56 - 1 | 2^56, 2^63, 2^64 - 1
+    #[kani::unwind(12)]
+    fn c18_rlp_encode_u64_large(s) {
+        rlp_encode_case_u64(0x8000);
+        rlp_encode_case_u64(0x1_0000_0000);
+        rlp_encode_case_u64(0x00ff_ffff_ffff_ffff);
+        rlp_encode_case_u64(0x0100_0000_0000_0000);
+        rlp_encode_case_u64(0x8000_0000_0000_0000);
+        rlp_encode_case_u64(0xffff_ffff_ffff_ffff);
+    }
+    /// RLP encoding, U128, concrete table: 0, 0x80, 2^64 - 1 | 2^64, 2^120, 2^127, 2^128 - 1
+    #[kani::unwind(20)]
+    fn c18_rlp_encode_u128(s) {
+        rlp_encode_case_u128(0);
+        rlp_encode_case_u128(0x80);
+        rlp_encode_case_u128(0xffff_ffff_ffff_ffff);
+        rlp_encode_case_u128(0x1_0000_0000_0000_0000);
+        rlp_encode_case_u128(1u128 << 120);
+        rlp_encode_case_u128(1u128 << 127);
+        rlp_encode_case_u128(u128::MAX);
+    }
+    /// the public `rlp::encode` entry point (1 KiB BytesMut) on two concrete values, and decode(encode(x)) == x
+    #[kani::unwind(12)]
+    fn c18_rlp_encode_api_u64(s) {
+        let e = rlp::encode(&mk64(0x80));
+        assert!(e.len() == 2 && e[0] == 0x81 && e[1] == 0x80);
+        match rlp::decode::<U64>(&e[..]) { Ok(y) => assert!(u64_of(&y) == 0x80), Err(_) => assert!(false) }
+        let e = rlp::encode(&mk64(u64::MAX));
+        assert!(e.len() == 9 && e[0] == 0x88);
+        let mut i = 0;
+        while i < 8 { assert!(e[1 + i] == 0xff); i += 1; }
+        match rlp::decode::<U64>(&e[..]) { Ok(y) => assert!(u64_of(&y) == u64::MAX), Err(_) => assert!(false) }
     }
 }
